@@ -35,7 +35,7 @@ mcvars == <<vars, phase, nfree>>
 NS == Len(SetupPlan)
 NR == Len(RegPlan)
 NM == Len(MutPlan)
-PrefixLen == NS + 4 * NR + NM
+PrefixLen == NS + 5 * NR + NM
 
 \* identity choice tokens: <<"tok","cpk">> = explicit spelling of the user's public key,
 \* <<"tok","spk">> = explicit spelling of the server's public key
@@ -44,12 +44,14 @@ ResolveId(x, cpk, spk) == IF x = Tok("cpk") THEN cpk ELSE IF x = Tok("spk") THEN
 
 MCInit == Init /\ phase = 1 /\ nfree = 0
 
+XFail(P) == "xfail" \in DOMAIN P /\ P.xfail
 SetupStep(k) ==
     LET P == SetupPlan[k] IN
     CASE P.op = "new"     -> SetupNew(k, P.tape)
-      [] P.op = "withkey" -> SetupWithKey(k, P.tape, setups[P.key].ssk, P.mode, FALSE)
+      \* xfail: the external key fails while the setup is being built (nothing is created)
+      [] P.op = "withkey" -> SetupWithKey(k, P.tape, setups[P.key].ssk, P.mode, XFail(P))
       [] P.op = "parts"   -> SetupFromParts(k, setups[P.seed].seed, setups[P.key].ssk,
-                                            setups[P.fake].fsk, P.mode, FALSE)
+                                            setups[P.fake].fsk, P.mode, XFail(P))
 
 \* An entry of RegPlan may carry adv: the registration RESPONSE is altered on its way to the client
 \* ("reflect": the client's own blinded element comes back; "evalgbg" / "evalbad": the evaluation is
@@ -60,8 +62,13 @@ GbgOf(field, cls) == CHOOSE g \in garbage : g[2] = field /\ g[3] = cls
 RegStep(i, sub) ==
     LET P == RegPlan[i] IN
     CASE sub = 0 -> CRegStart(i, P.pw1, 100 + 2 * i)
-      [] sub = 1 -> SRegStart(P.s, regs[i].blinded, P.cid)
-      [] sub = 2 -> LET r0 == SRegStartRes(P.s, regs[i].blinded, P.cid)
+      \* persistence points inside a registration: the client's registration state, the server setup
+      [] sub = 1 -> \/ UNCHANGED vars
+                    \/ /\ Reloads
+                       /\ \E co \in {"native", "bincode", "json"} :
+                            Reload("reg", i, co) \/ Reload("setup", P.s, co)
+      [] sub = 2 -> SRegStart(P.s, regs[i].blinded, P.cid)
+      [] sub = 3 -> LET r0 == SRegStartRes(P.s, regs[i].blinded, P.cid)
                         r == [eval |-> CASE AdvOf(P) = "reflect" -> regs[i].blinded
                                          [] AdvOf(P) = "evalgbg" -> GbgOf("eval", "valid")
                                          [] AdvOf(P) = "evalbad" -> GbgOf("eval", "invalid")
@@ -73,7 +80,7 @@ RegStep(i, sub) ==
                     CRegFinish(i, P.pw2, r.eval, r.spk,
                                ResolveId(idu, NoneV, r.spk), ResolveId(ids, NoneV, r.spk),
                                ksf, FALSE, 101 + 2 * i)
-      [] sub = 3 -> IF RegOk(i) THEN SRegFinish(i, RecOfReg(i))
+      [] sub = 4 -> IF RegOk(i) THEN SRegFinish(i, RecOfReg(i))
                     ELSE UNCHANGED vars          \* the client refused: nothing to upload
 
 Prefix ==
@@ -81,7 +88,7 @@ Prefix ==
     /\ IF phase <= NS THEN SetupStep(phase)
        ELSE IF phase <= NS + NM
             THEN Mut(MutPlan[phase - NS][1], MutPlan[phase - NS][2])
-            ELSE RegStep(((phase - NS - NM - 1) \div 4) + 1, (phase - NS - NM - 1) % 4)
+            ELSE RegStep(((phase - NS - NM - 1) \div 5) + 1, (phase - NS - NM - 1) % 5)
     /\ phase' = phase + 1
     /\ UNCHANGED nfree
 
